@@ -35,7 +35,7 @@ ASSUMPTIONS = [
     "where the user's edge ends is decided by positions, not by that order",
     "the length of a spline/polyLine edge is the polygon through vertex, points, vertex (the library's documented "
     "convention); the length of a projected edge and of an edge on an interpolated curve is not asserted",
-    "3-point arcs keep their point within pi of the start (ledger F10 is decided in C08); circle curves cover less than "
+    "3-point arcs keep their point within pi of both ends (ledger F10, whose effect depends on the traversal sense, is decided in C08); circle curves cover less than "
     "a full turn (closest-parameter search near the 0 = 2 pi seam is C16's subject)",
     "written coordinates carry 8 decimals: positions are compared with 1e-7 absolute + 1e-9 relative to the radius",
     "blocks with a zero-length edge cannot be graded by the library (count chop on zero length raises), so for them "
